@@ -12,7 +12,7 @@ extern const fsm_t* g_dq_target_self; extern const fsm_t* g_dq_target_rhs;
 void regions_do_copy(int region_id, fsm_t* self_, const fsm_t* rhs)
 __CPROVER_requires(REGIONS_OK && __CPROVER_is_fresh(self_, sizeof(*self_)) && __CPROVER_is_fresh(rhs, sizeof(*rhs)) && 0 <= region_id && region_id <= nr_regions)
 __CPROVER_assigns(__CPROVER_object_upto(self_->m_states, sizeof(self_->m_states)))                                     /*@ob C15.source-of-a-copy-is-unchanged */
-__CPROVER_ensures(region_id <= g_k ==> self_->m_states[g_k] == rhs->m_states[g_k])             /*@ob C15.active-state-of-every-region-copied */
+__CPROVER_ensures(region_id <= g_k ==> self_->m_states[g_k] == rhs->m_states[g_k])             /*@ob C15,C03.active-state-of-every-region-copied */
 __CPROVER_ensures(g_k < region_id ==> self_->m_states[g_k] == __CPROVER_old(self_->m_states[g_k]))
 ;
 /* std::deque<boost::function<...>>::operator= [A]: element-wise copy; a copied boost::bind(pf, this_of_rhs, ...) keeps its bound object */
@@ -45,11 +45,11 @@ __CPROVER_requires(g_mq_target_rhs == rhs && g_dq_target_rhs == rhs && 0 <= g_mq
 __CPROVER_requires(g_mq_len_rhs == 0 && g_dq_len_rhs == 0)          /* exclusion of known finding C15/pending-bound-to-original: everything else must hold */
 #endif
 __CPROVER_assigns(__CPROVER_object_whole(self), g_cstep, g_mq_len_self, g_mq_target_self, g_dq_len_self, g_dq_target_self)   /*@ob C15.source-of-a-copy-is-unchanged */
-__CPROVER_ensures(self->m_states[g_k] == rhs->m_states[g_k])                                                             /*@ob C15.active-state-of-every-region-copied */
-__CPROVER_ensures(self->m_history_last[g_k] == rhs->m_history_last[g_k] && self->m_history_init[g_k] == rhs->m_history_init[g_k])   /*@ob C15.history-memory-copied */
+__CPROVER_ensures(self->m_states[g_k] == rhs->m_states[g_k])                                                             /*@ob C15,C03.active-state-of-every-region-copied */
+__CPROVER_ensures(self->m_history_last[g_k] == rhs->m_history_last[g_k] && self->m_history_init[g_k] == rhs->m_history_init[g_k])   /*@ob C15,C08.history-memory-copied */
 __CPROVER_ensures(self->m_event_processing == rhs->m_event_processing && self->m_is_included == rhs->m_is_included)    /*@ob C15.processing-flags-copied */
 __CPROVER_ensures(g_cstep == (CP_STATES | CP_MQ | CP_DQ | CP_HIST | CP_SUBSTATES | CP_SMPTR))                            /*@ob C15.every-member-copied-and-substate-back-pointers-reset */
-__CPROVER_ensures(g_mq_len_self == g_mq_len_rhs && g_dq_len_self == g_dq_len_rhs)                                        /*@ob C15.pending-events-copied */
+__CPROVER_ensures(g_mq_len_self == g_mq_len_rhs && g_dq_len_self == g_dq_len_rhs)                                        /*@ob C15,C04,C05,C20.pending-events-copied */
 __CPROVER_ensures((g_mq_len_self > 0 ==> g_mq_target_self == self) && (g_dq_len_self > 0 ==> g_dq_target_self == self))  /*@ob C15.pending-events-of-the-copy-belong-to-the-copy */
 ;
 
